@@ -247,7 +247,7 @@ pub fn property() -> Property {
     Property {
         id: "C08",
         level: "exploration",
-        rule: "cases are stream contents (rich generated files where 78% carry 1..3 header-field overrides from the boundary table {0,1,..,2^31,2^32-1,2^63,2^64-1,len-1,len,len+1,...} so that small files claim huge sizes/counts/offsets, 16% laid out with up to 1 MiB of padding between small tables; mutated linker-produced samples; raw bytes) x an operation sequence of 0..24 stream calls (as C07, incl. fabricated headers with boundary ranges) x chunking/interrupting readers. Monitors: (1) no panic; (2) a counting global allocator with a per-thread window around open_stream and around every call: every single allocation request <= 8*stream_len + 4096 bytes (requests above 1 GiB park the thread and fail the case); (3) an instrumented Read+Seek logs every byte range delivered: during open_stream the union must lie inside {ident, header tail, shdr[0] when extended numbering needs it, the two header tables}, computed from the bytes by an independent reader; during each later call inside the ranges that call designates according to the headers (section range, linked string table, version sections, segment range); re-reading a designated range is allowed. Non-trivial: the file claims a size above the bound, or has >64 KiB of padding and at least one call was monitored; distinct by (file, ops) hash.",
+        rule: "cases are stream contents (rich generated files where 78% carry 1..3 header-field overrides from the boundary table {0,1,..,2^31,2^32-1,2^63,2^64-1,len-1,len,len+1,...} so that small files claim huge sizes/counts/offsets, 16% laid out with up to 1 MiB of padding between small tables; mutated linker-produced samples; raw bytes) x an operation sequence of 0..40 (8%: 60..150) stream calls (as C07, incl. fabricated headers with boundary ranges) x chunking/interrupting readers with the cursor initially at 0 or elsewhere (a fifth failing once with a transient hard error). Monitors: (1) no panic; (2) a counting global allocator with a per-thread window around open_stream and around every call: every single allocation request <= 8*stream_len + 4096 bytes (+64 bytes per call made so far: the cache's own table holds one entry per distinct range the caller asked for) (requests above 1 GiB park the thread and fail the case); (3) an instrumented Read+Seek logs every byte range delivered: during open_stream the union must lie inside {ident, header tail, shdr[0] when extended numbering needs it, the two header tables}, computed from the bytes by an independent reader; during each later call inside the ranges that call designates according to the headers (section range, linked string table, version sections - nothing at all when the file has no .gnu.version section -, segment range); re-reading a designated range is allowed. Non-trivial: the file claims a size above the bound, or has >64 KiB of padding and at least one call was monitored; distinct by (file, ops) hash.",
         assumptions: &["the legitimate maximum allocation derived from the code is about 3.5 x stream length (a Vec<ProgramHeader> grown by doubling for an ELF32 table); 8x + 4 KiB leaves margin", "the allocator window also counts the harness's own small allocations made while digesting results"],
         subs: vec![Sub::new("bounded", oracle, 3000, 300_000, 10_000_000).shrink(1500), Sub::new("bounded_raw", oracle_raw, 600, 20_000, 200_000).shrink(1500)],
         extras: vec![crate::fuzz::c08_campaign],
